@@ -17,6 +17,7 @@ import (
 	"io"
 	"log"
 	"net"
+	"os"
 	"sort"
 	"strings"
 	"testing"
@@ -49,6 +50,19 @@ type h1Conn struct {
 	broken   bool // a write failed: later writes fail too
 	writeErr bool // some Write returned an error (a trailing partial frame is then legitimate)
 	writes   int
+	// write deadline, honoured like a real net.Conn does: a Write that is blocked when the deadline passes returns the
+	// number of octets the peer had accepted so far and a timeout error; the connection stays usable
+	wdeadline time.Time
+	wdChanged chan struct{} // closed and replaced by every SetWriteDeadline: blocked writes look at the deadline again
+}
+
+type simTimeout struct{}
+
+func (simTimeout) Error() string   { return "sim: i/o timeout" }
+func (simTimeout) Timeout() bool   { return true }
+func (simTimeout) Temporary() bool { return true }
+func (simTimeout) Is(target error) bool {
+	return target == os.ErrDeadlineExceeded
 }
 
 func (c *h1Conn) Read(p []byte) (int, error) {
@@ -80,6 +94,11 @@ func (c *h1Conn) Write(p []byte) (int, error) {
 	if c.peerGone || c.broken {
 		return fail(0, errors.New("sim: broken pipe"))
 	}
+	if !c.wdeadline.IsZero() && !time.Now().Before(c.wdeadline) {
+		h.r.Logf("  conn%d write(%d) -> 0, timeout (deadline passed)", c.idx, len(p))
+		c.writeErr = true
+		return 0, simTimeout{}
+	}
 	switch h.t.Pick(h.writeFaultW, "wfault") {
 	case 1: // short write, no error (io.Writer contract allows it for wrappers)
 		if len(p) > 1 {
@@ -93,27 +112,60 @@ func (c *h1Conn) Write(p []byte) (int, error) {
 		k := h.t.Choose(len(p), "torn")
 		h.r.Count("fault:write_error_torn", 1)
 		return fail(k, errors.New("sim: connection reset"))
-	case 3: // stall (slow receiver)
+	case 3: // stall (slow receiver): the peer has taken the first k octets and then stops reading for a while
 		d := h.stallDur()
 		h.r.Count("fault:write_stall", 1)
-		h.r.Logf("  conn%d write stalls %v", c.idx, d)
+		k := 0
+		if h.t.Bool("stall_mid_write") {
+			k = h.t.Choose(len(p), "stall_after")
+			c.rx = append(c.rx, p[:k]...)
+		}
+		h.r.Logf("  conn%d write stalls %v after %d of %d octets", c.idx, d, k, len(p))
 		h.stalled++
 		t := time.NewTimer(d)
-		select {
-		case <-t.C:
-			simrt.Woke("conn.write:stall-over")
-			h.stalled--
-		case <-c.closedCh:
-			t.Stop()
-			simrt.Woke("conn.write:closed-in-stall")
-			h.stalled--
-			h.r.Count("probe:close_during_stalled_write", 1)
-			return fail(0, net.ErrClosed)
-		case <-c.peerCh:
-			t.Stop()
-			simrt.Woke("conn.write:peer-closed-in-stall")
-			h.stalled--
-			return fail(0, errors.New("sim: broken pipe"))
+		for {
+			var dl <-chan time.Time
+			var dt *time.Timer
+			if !c.wdeadline.IsZero() {
+				dt = time.NewTimer(time.Until(c.wdeadline)) // fires at once when the deadline has passed
+				dl = dt.C
+			}
+			changed := c.wdChanged
+			select {
+			case <-t.C:
+				simrt.Woke("conn.write:stall-over")
+				h.stalled--
+				c.rx = append(c.rx, p[k:]...)
+				return len(p), nil
+			case <-c.closedCh:
+				t.Stop()
+				simrt.Woke("conn.write:closed-in-stall")
+				h.stalled--
+				h.r.Count("probe:close_during_stalled_write", 1)
+				c.writeErr, c.broken = true, true
+				h.r.Logf("  conn%d write(%d) -> %d, closed", c.idx, len(p), k)
+				return k, net.ErrClosed
+			case <-c.peerCh:
+				t.Stop()
+				simrt.Woke("conn.write:peer-closed-in-stall")
+				h.stalled--
+				c.writeErr, c.broken = true, true
+				h.r.Logf("  conn%d write(%d) -> %d, broken pipe", c.idx, len(p), k)
+				return k, errors.New("sim: broken pipe")
+			case <-dl:
+				t.Stop()
+				simrt.Woke("conn.write:deadline-in-stall")
+				h.stalled--
+				h.r.Count("probe:write_deadline_expired_in_stalled_write", 1)
+				h.r.Logf("  conn%d write(%d) -> %d, timeout", c.idx, len(p), k)
+				c.writeErr = true // a Write returned an error: what follows on this connection may start mid-frame
+				return k, simTimeout{}
+			case <-changed:
+				simrt.Woke("conn.write:deadline-changed")
+				if dt != nil {
+					dt.Stop()
+				}
+			}
 		}
 	}
 	c.rx = append(c.rx, p...)
@@ -128,11 +180,16 @@ func (c *h1Conn) Close() error {
 	}
 	return nil
 }
-func (c *h1Conn) LocalAddr() net.Addr                { return simAddr{} }
-func (c *h1Conn) RemoteAddr() net.Addr               { return simAddr{} }
-func (c *h1Conn) SetDeadline(t time.Time) error      { return nil }
-func (c *h1Conn) SetReadDeadline(t time.Time) error  { return nil }
-func (c *h1Conn) SetWriteDeadline(t time.Time) error { return nil }
+func (c *h1Conn) LocalAddr() net.Addr               { return simAddr{} }
+func (c *h1Conn) RemoteAddr() net.Addr              { return simAddr{} }
+func (c *h1Conn) SetDeadline(t time.Time) error     { return c.SetWriteDeadline(t) }
+func (c *h1Conn) SetReadDeadline(t time.Time) error { return nil }
+func (c *h1Conn) SetWriteDeadline(t time.Time) error {
+	c.wdeadline = t
+	close(c.wdChanged)
+	c.wdChanged = make(chan struct{})
+	return nil
+}
 
 // ---------------------------------------------------------------------------
 // harness state
@@ -187,7 +244,7 @@ func (h *h1) dialer(ctx context.Context, addr string) (net.Conn, error) {
 	simrt.Yield("dial")
 	h.dials++
 	mk := func() (net.Conn, error) {
-		c := &h1Conn{h: h, idx: len(h.conns), closedCh: make(chan struct{}), peerCh: make(chan struct{})}
+		c := &h1Conn{h: h, idx: len(h.conns), closedCh: make(chan struct{}), peerCh: make(chan struct{}), wdChanged: make(chan struct{})}
 		h.conns = append(h.conns, c)
 		h.r.Logf("  dial #%d -> conn%d", h.dials, c.idx)
 		return c, nil
